@@ -1,28 +1,49 @@
-import SeqIoModel.Proofs.FastaScan
-import SeqIoModel.Model.Spec
+import SeqIoModel.Proofs.FastaStream
 /-!
 # C01 – FASTA reading returns exactly the records the format rules define
 
-Property theorems only; helper lemmas live in `Proofs/`.
+`Fasta.runNexts k r` = what a caller sees from `k` consecutive `next()` calls of the concrete machine
+M (`Model/Fasta.lean`, function-by-function mirror of `fasta.rs`); `Fasta.specObs inp` = the stream the
+reference semantics S prescribes (`Model/Spec.lean`, line-based, no buffers).
 -/
 
 namespace SeqIo.Thm.C01
-open SeqIo SeqIo.Fasta
+open SeqIo SeqIo.Fasta SeqIo.FillProofs
 
-/-- The record scan is resumable (found case): a scan that finds the end of the record in a
-window finds the same end, with the same line offsets, in every extension of the window –
-the size of the buffer does not influence where a record ends. -/
+/-- For EVERY input, capacity ≥ 3, never-refusing policy, read script without failures (any chunking,
+any pattern of interrupted reads) and number of calls: the reader returns exactly S's records – header,
+sequence lines, 1-based line number and byte offset – in order, or S's single invalid-start error,
+followed by end of input forever.  No panic, no fuel exhaustion, no buffer-limit error. -/
+theorem fasta_reading_is_spec (inp : List UInt8) (cap : Nat) (hcap : 3 ≤ cap) (pol : Pol) (hpol : PolOk pol)
+    (script : List ReadEv) (hs : NoFail script) (chunk : Nat) (k : Nat) :
+    runNexts k (mkReader inp cap pol script chunk) = (specObs inp ++ List.replicate k Obs.none).take k :=
+  fasta_next_stream inp cap hcap pol hpol script hs chunk k
+
+/-- the invariant behind it is preserved by every `next()` call, and from it: no panic, enough fuel -/
+theorem next_total (inp : List UInt8) (r : Reader) (fuel : Nat) (hi : Inv inp r) (hf : inp.length < fuel) :
+    Inv inp (next fuel r).1 ∧ (next fuel r).2 ≠ .panic ∧ (next fuel r).2 ≠ .fuel ∧
+      (next fuel r).2 ≠ .err .bufferLimit :=
+  ⟨next_preserves_inv hi hf, no_panic hi hf, fuel_enough hi hf, no_bufferLimit hi hf⟩
+
+/-- the record scan does not depend on the window it runs in (found case) -/
 theorem scan_window_independent_found (win ext : List UInt8) (i : Nat) (acc : List Nat)
     (sp : Nat) (acc1 : List Nat) (h : scan win i acc = (true, sp, acc1)) :
     scan (win ++ ext) i acc = (true, sp, acc1) :=
   scan_resume_found win ext i acc sp acc1 h
 
-/-- The record scan is resumable (not-found case): continuing an unfinished scan from the
-stored `search_pos` / `seq_pos` after the window has been extended (refill, growth) gives the
-same result as scanning the extended window from the start. -/
+/-- … and an unfinished scan resumed from the stored offsets equals a scan from the start -/
 theorem scan_window_independent_resume (win ext : List UInt8) (i : Nat) (acc : List Nat)
     (sp : Nat) (acc1 : List Nat) (h : scan win i acc = (false, sp, acc1)) :
     scan (win ++ ext) i acc = scan (win.drop (sp - i) ++ ext) sp acc1 :=
   scan_resume_notfound win ext i acc sp acc1 h
+
+/-- non-vacuity: a policy satisfying the hypothesis exists, and the theorem speaks about real records -/
+example : PolOk (PolDesc.add 1).toPol := by
+  intro h cur
+  refine ⟨cur + 1, ?_, by omega⟩
+  simp [PolDesc.toPol]
+
+example : specObs [62, 97, 10, 65, 67, 10, 62, 98] =
+    [.record [97] [[65, 67]] 1 0, .record [98] [] 3 6] := by decide
 
 end SeqIo.Thm.C01
